@@ -3,3 +3,19 @@
 From Wesh Require Import Gen.Handshake.
 Lemma handshake_validates : handshake_validates_peer_ephemeral = true.
 Proof. reflexivity. Qed.
+
+(* contact_request_manager.go: SendContactRequest performs the requester handshake FIRST and returns on
+   its failure, then writes the own contact card, then marks the request as sent (Model: [outgoing]);
+   handleIncomingRequest performs the responder handshake, reads the card, compares its key with the
+   proven one, checks its format and only then records the request (Model: [incoming]) *)
+From Coq Require Import List String.
+Import ListNotations.
+Open Scope string_scope.
+Lemma send_request_order :
+  send_request_steps = [("handshake.RequestUsingReaderWriter", true); ("writer.WriteMsg", true);
+                        ("c.metadataStore.ContactRequestOutgoingSent", true)].
+Proof. reflexivity. Qed.
+Lemma incoming_request_order :
+  incoming_request_steps = [("handshake.ResponseUsingReaderWriter", true); ("reader.ReadMsg", true); ("bytes.Equal", true);
+                            ("contact.CheckFormat", true); ("c.metadataStore.ContactRequestIncomingReceived", true)].
+Proof. reflexivity. Qed.
